@@ -258,7 +258,9 @@ package proxy
 //@   ensures specReqOK(req) && req.ctx == old(req.ctx) && req.Body == old(req.Body)
 //@   ensures [C08] err == nil && fetched.Type == 1 ==> fetched.Direct.fetchInfo.UpstreamStatus == fetched.Direct.Response.StatusCode
 
-//@ props C07 C16 C15 C02 C01
+// (the 416 clause also serves C10 - the caller recognises the error as 'already answered', so a
+// tunnel gets one response per request - and C19: the retry switch is read per request)
+//@ props C07 C16 C15 C02 C01 C10 C19
 //@ func Proxy.handleRangeRequest
 //@   ghost callsite-requires [C02] dedupFetch keyid(arg_key) == keyid(key)
 //@   nopanic
@@ -281,7 +283,7 @@ package proxy
 //@   ensures [C07] old(specRangeOK(clientHd.Range.value.value.start, clientHd.Range.value.value.end, cached.Metadata.Size)) && !old(specIfRangeMismatch(clientHd, cached)) ==> sid(resphdr(r)["Content-Length"][0]) == old(fmtid("%d", specRangeEnd(clientHd.Range.value.value.start, clientHd.Range.value.value.end, cached.Metadata.Size) - specRangeStart(clientHd.Range.value.value.start, clientHd.Range.value.value.end, cached.Metadata.Size) + 1))
 //@   ensures [C07] old(specRangeOK(clientHd.Range.value.value.start, clientHd.Range.value.value.end, cached.Metadata.Size)) && !old(specIfRangeMismatch(clientHd, cached)) && req.Method != "HEAD" ==> respbody(r) == old(sectionreader(cached.Data, specRangeStart(clientHd.Range.value.value.start, clientHd.Range.value.value.end, cached.Metadata.Size), specRangeEnd(clientHd.Range.value.value.start, clientHd.Range.value.value.end, cached.Metadata.Size) - specRangeStart(clientHd.Range.value.value.start, clientHd.Range.value.value.end, cached.Metadata.Size) + 1))
 //@   ensures [C07] old(specRangeOK(clientHd.Range.value.value.start, clientHd.Range.value.value.end, cached.Metadata.Size)) && old(specIfRangeMismatch(clientHd, cached)) ==> result == ErrIfRangeMismatch && httpwrites(r) == old(httpwrites(r))
-//@   ensures [C07] !old(specRangeOK(clientHd.Range.value.value.start, clientHd.Range.value.value.end, cached.Metadata.Size)) && !old(cfgval(p.cfg.Proxy.RetryOnInvalidRange)) ==> result == ErrRangeNotSatisfiable && httpstatus(r) == 416 && httpwrites(r) == old(httpwrites(r)) + 1 && sid(resphdr(r)["Content-Range"][0]) == old(fmtid("bytes */%d", cached.Metadata.Size))
+//@   ensures [C07,C10,C19] !old(specRangeOK(clientHd.Range.value.value.start, clientHd.Range.value.value.end, cached.Metadata.Size)) && !old(cfgval(p.cfg.Proxy.RetryOnInvalidRange)) ==> result == ErrRangeNotSatisfiable && httpstatus(r) == 416 && httpwrites(r) == old(httpwrites(r)) + 1 && sid(resphdr(r)["Content-Range"][0]) == old(fmtid("bytes */%d", cached.Metadata.Size))
 //@   requires specEntryShape(cached)
 //@   ensures iserr(result, ErrIfRangeMismatch) ==> specEntryShape(cached)
 //@   ensures req.Body == old(req.Body)
